@@ -48,3 +48,28 @@ R("C09", "rename-counter", SYM, "result_count", "n_results", count=99)
 R("C09", "range-swap-order", RQC, "        self.at_least.assert_satisfaction(number_of_solutions, quantifier, done)\n        self.at_most.assert_satisfaction(number_of_solutions, quantifier, done)\n",
   "        self.at_most.assert_satisfaction(number_of_solutions, quantifier, done)\n        self.at_least.assert_satisfaction(number_of_solutions, quantifier, done)\n")
 CASES[:] = [c for c in CASES if c]
+
+# ------------------------------------------------------------------------------------- C19
+JS = "krrood/adapters/json_serializer.py"
+M("C19", "drop-str-guard", JS, "        if not isinstance(fully_qualified_class_name, str):\n            raise InvalidTypeFormatError(fully_qualified_class_name)\n", "", "rsplit:AttributeError")
+M("C19", "drop-empty-module-guard", JS, "        if not module_name or module_name.startswith(\".\"):", "        if module_name.startswith(\".\"):", "import_module:ValueError")
+M("C19", "drop-relative-guard", JS, "        if not module_name or module_name.startswith(\".\"):", "        if not module_name:", "import_module:TypeError")
+M("C19", "drop-class-guard", JS, "        if not isinstance(target_cls, type):\n            raise ClassNotFoundError(class_name, module_name)\n", "", "issubclass:TypeError")
+M("C19", "unknown-module-unconverted", JS, "        except ImportError as exc:\n            raise UnknownModuleError(module_name) from exc", "        except ImportError as exc:\n            raise", "import_module")
+M("C19", "getattr-unconverted", JS, "        try:\n            target_cls = getattr(module, class_name)\n        except AttributeError as exc:\n            raise ClassNotFoundError(class_name, module_name) from exc\n",
+  "        target_cls = getattr(module, class_name)\n", "getattr:AttributeError")
+M("C19", "no-dot-unconverted", JS, "        try:\n            module_name, class_name = fully_qualified_class_name.rsplit(\".\", 1)\n        except ValueError as exc:\n            raise InvalidTypeFormatError(fully_qualified_class_name) from exc\n",
+  "        module_name, class_name = fully_qualified_class_name.rsplit(\".\", 1)\n", "unpack")
+M("C19", "wrong-error-class", JS, "            raise MissingTypeError()", "            raise KeyError(JSON_TYPE_NAME)", "raise:")
+M("C19", "drop-list-dispatch", JS, "        if isinstance(data, list_like_classes):\n            return [from_json(d) for d in data]\n", "", ".get:AttributeError")
+M("C19", "error-message-touches-nonclass", JS, "        if not isinstance(target_cls, type):\n            raise ClassNotFoundError(class_name, module_name)\n",
+  "        if not isinstance(target_cls, type):\n            raise ClassNotDeserializableError(target_cls)\n", "__name__")
+R("C19", "catch-instead-of-guard", JS, "        if not module_name or module_name.startswith(\".\"):\n            raise InvalidTypeFormatError(fully_qualified_class_name)\n\n        try:\n            module = importlib.import_module(module_name)\n        except ImportError as exc:",
+  "        try:\n            module = importlib.import_module(module_name)\n        except (ImportError, ValueError, TypeError) as exc:")
+R("C19", "try-around-issubclass", JS, "        if not isinstance(target_cls, type):\n            raise ClassNotFoundError(class_name, module_name)\n\n        if issubclass(target_cls, SubclassJSONSerializer):\n            return target_cls._from_json(data, **kwargs)\n",
+  "        try:\n            is_serializer = issubclass(target_cls, SubclassJSONSerializer)\n        except TypeError as exc:\n            raise ClassNotFoundError(class_name, module_name) from exc\n        if is_serializer:\n            return target_cls._from_json(data, **kwargs)\n")
+R("C19", "rename-tag-var", JS, "fully_qualified_class_name", "tag", count=99)
+R("C19", "partition-form", JS, "        try:\n            module_name, class_name = fully_qualified_class_name.rsplit(\".\", 1)\n        except ValueError as exc:\n            raise InvalidTypeFormatError(fully_qualified_class_name) from exc\n        if not module_name or",
+  "        module_name, _sep, class_name = fully_qualified_class_name.rpartition(\".\")\n        if not module_name or")
+M("C19", "call-from-json-on-any-class", JS, "        if issubclass(target_cls, SubclassJSONSerializer):\n            return target_cls._from_json(data, **kwargs)\n",
+  "        if hasattr(target_cls, '__mro__'):\n            return target_cls._from_json(data, **kwargs)\n", "_from_json:AttributeError")
